@@ -20,7 +20,7 @@ import (
 )
 
 func init() {
-	stats.Rule("C03", "rapid cases: one mapping per case (kind in {log, linear, cubic}; built from alpha in [1e-9,0.99], or from (gamma, offset) with the accuracy in the same range and offset in {0, default, +-10, +-1e6, +-2^30, fractional}), ~70 probe values in [MinIndexableValue, MaxIndexableValue]: LowerBound(i) +- 0..4 ulps for i uniform over the index range and for the 10 lowest/highest indexes, powers of two +- ulps, both range ends and <= 4 ulps inward, log-uniform fill; plus ordered pairs (adjacent floats, few ulps apart, adjacent bins, far apart) for monotonicity. Checked: |Value(Index(v))-v| <= (alpha+slack) v, index in int32, LowerBound(i) <= v <= LowerBound(i+1) up to slack, Index non-decreasing, RelativeAccuracy equals the configured alpha. Non-trivial: the case contains a value within 4 ulps of a bin edge, binade edge or range end (always by construction, so distinctness by hash of the printed case is the binding part).")
+	stats.Rule("C03", "rapid cases: one mapping per case (kind in {log, linear, cubic}; built from alpha in [1e-9,0.99], or from (gamma, offset) with the accuracy in the same range and offset in {0, default, +-10, +-1e6, +-2^30, fractional}), ~70 probe values in [MinIndexableValue, MaxIndexableValue]: LowerBound(i) +- 0..4 ulps for i uniform over the index range and for the 10 lowest/highest indexes, LowerBound(i)*(1 +- 10^-u) for u uniform in [2.5,16], powers of two +- ulps, both range ends and <= 4 ulps inward, log-uniform fill; plus ordered pairs (adjacent floats, few ulps apart, adjacent bins, far apart) for monotonicity. Checked: |Value(Index(v))-v| <= (alpha+slack) v, index in int32, LowerBound(i) <= v <= LowerBound(i+1) up to slack, Index non-decreasing, RelativeAccuracy equals the configured alpha. Non-trivial: the case contains a value within 4 ulps of a bin edge, binade edge or range end (always by construction, so distinctness by hash of the printed case is the binding part).")
 	stats.Rule("C19", "rapid cases: mappings as in C03; binary Encode/Decode, protobuf ToProto/Marshal/Unmarshal/FromProto and EncodeProto (streaming builder) round-trips must give a mapping that Equals the original both ways, re-serializes to identical bytes and agrees bitwise on Index/Value/LowerBound/RelativeAccuracy/Min/MaxIndexableValue at probe values and indexes; the independent parser (refdec) must read the same kind/gamma/offset from the bytes; several mappings read in a row (binary, protobuf, sketch decoder; same base/offset across kinds included) must each come back as written; Equals must be reflexive, symmetric, false across kinds and for same-kind mappings whose accuracy differs by >= 0.1% or whose offsets clearly differ, true for identical parameters. Non-trivial: non-default offset or a cross-kind / near-alpha pair; distinct by hash of the printed case.")
 }
 
@@ -155,6 +155,18 @@ func c03Values(t *rapid.T, m mapping.IndexMapping, cl *caseLog) []float64 {
 		vs = append(vs, clamp(gen.NextUp(m.LowerBound(i), rapid.IntRange(-4, 4).Draw(t, "ulps"))))
 	}
 	cl.label("probe:bin-edge")
+	// (a') the neighbourhood of bin edges at every scale between a few ulps and a fraction of a bin: edge*(1 +- 10^-u),
+	// u uniform in [2.5, 16] (an error in the floor of the index computation that is not confined to the last few
+	// ulps shows at these distances, far too close to the edge for a uniformly drawn value to fall there)
+	for j := 0; j < 12; j++ {
+		i := rapid.IntRange(imin, imax).Draw(t, "inear")
+		d := math.Pow(10, -rapid.Float64Range(2.5, 16).Draw(t, "nearexp"))
+		if rapid.Bool().Draw(t, "nearabove") {
+			d = -d
+		}
+		vs = append(vs, clamp(m.LowerBound(i)*(1-d)))
+	}
+	cl.label("probe:bin-edge-neighbourhood")
 	// (b) binade edges
 	emin, emax := math.Ilogb(mn), math.Ilogb(mx)
 	for j := 0; j < 10; j++ {
